@@ -22,15 +22,16 @@ func init() {
 			"(Extend with positions >= size, size 0, empty positions; Set 0/1; pre-sized builders) checked after EVERY op. Non-trivial+distinct = hash of (list, n) with a non-empty list, hash of a history with >= 2 ops.",
 		Assumptions: []string{"Of/OfMany compared only on ascending (merged) lists, sizes >= 0, positions >= 0 (Of's stated domain)", "Builder compared as a set; extra zero words are allowed",
 			"Get/Get1 probed only inside the bitmap"},
-		Flavours: releaseThenGo126,
+		Flavours: releaseAnd386,
 		Required: []string{"of/empty-list", "of/n-absent", "of/n-negative", "of/n<last+1", "of/n>last+1", "of/last%64=63", "of/last%64=0", "probe/negative", "probe/beyond", "probe/maxint32", "probe/minint32",
-			"ofmany/pos>=size", "ofmany/size=0", "ofmany/empty-sub", "builder/extend-pos>=size", "builder/extend-size=0", "builder/extend-empty", "builder/set-0", "builder/set-1", "builder/presized", "roundtrip/trailing-zero-words"},
+			"ofmany/pos>=size", "ofmany/size=0", "ofmany/empty-sub", "builder/extend-pos>=size", "builder/extend-size=0", "builder/extend-empty", "builder/set-0", "builder/set-1", "builder/presized", "builder/over-dirty-capacity", "roundtrip/trailing-zero-words", "probe/bitmap>=2^31-bits"},
 		Families: func(c *mon.Config) []mon.Family {
 			return []mon.Family{
 				{Name: "of", N: c.Pick(40000, 4000000), Run: c12Of},
 				{Name: "roundtrip-zoo", N: c.Pick(10000, 1500000), Run: c12RoundTrip},
 				{Name: "ofmany", N: c.Pick(40000, 8000000), Run: c12OfMany},
 				{Name: "builder", N: c.Pick(60000, 10000000), Run: c12Builder},
+				{Name: "huge-bitmap-probes", N: 1, Run: c12Huge},
 			}
 		},
 	})
@@ -434,6 +435,16 @@ func c12Builder(w *mon.W, idx int) {
 	}
 	w.Op, w.Obj = "NewBuilder", nil
 	b := bitmap.NewBuilder(pre)
+	if idx%5 == 4 {
+		// a builder laid over a recycled scratch buffer: Words is empty but its capacity still holds
+		// the previous bitmap. Words never seen by this builder must come up as zero.
+		scratch := make([]uint64, 40)
+		for i := range scratch {
+			scratch[i] = poisonW
+		}
+		b = &bitmap.Builder{Words: scratch[:0]}
+		w.Bucket("builder/over-dirty-capacity")
+	}
 	set := map[int32]bool{}
 	maxSet := int32(-1)
 	var off int32
@@ -524,4 +535,46 @@ func c12Builder(w *mon.W, idx int) {
 	w.Sample(func() interface{} {
 		return mon.D{"call": "Builder history", "presized": pre, "history": hist, "Offset": off}
 	})
+}
+
+// c12Huge: membership probes on bitmaps of 2^25-1 and 2^25 words (2^31 bits): every int32 position
+// is inside, the bit count itself no longer fits an int32. Untouched pages cost no memory.
+func c12Huge(w *mon.W, _ int) {
+	big := make([]uint64, 1<<25)
+	set := []int32{0, 63, 64, 1 << 20, 1<<30 + 3, 1<<31 - 130, 1<<31 - 65, 1<<31 - 64, 1<<31 - 1}
+	for _, p := range set {
+		setBit(big, int(p))
+	}
+	member := map[int32]bool{}
+	for _, p := range set {
+		member[p] = true
+	}
+	for _, nw := range []int{1<<25 - 1, 1 << 25} {
+		bm := big[:nw]
+		for _, p := range []int32{0, 1, 63, 64, 65, 1 << 20, 1<<20 + 1, 1<<30 + 3, 1<<30 + 4, 1<<31 - 131, 1<<31 - 130, 1<<31 - 66, 1<<31 - 65, 1<<31 - 64, 1<<31 - 63, 1<<31 - 2, 1<<31 - 1, -1, -64, -1 << 31} {
+			inside := p >= 0 && int64(p) < 64*int64(nw)
+			var e1 uint64
+			if inside && member[p] {
+				e1 = 1
+			}
+			e := e1 << uint(uint32(p)&63)
+			w.Op, w.A, w.B = "SafeGet(huge)", int64(p), int64(nw)
+			if g, g1 := bitmap.SafeGet(bm, p), bitmap.SafeGet1(bm, p); g != e || g1 != e1 {
+				w.Fail("SafeGet/huge-bitmap", mon.D{"nwords": nw, "i": p, "SafeGet": fmt.Sprintf("%#x", g), "SafeGet1": g1, "expected_member": e1 == 1})
+				return
+			}
+			if inside {
+				w.Op = "Get(huge)"
+				if g, g1 := bitmap.Get(bm, p), bitmap.Get1(bm, p); g != e || g1 != e1 {
+					w.Fail("Get/huge-bitmap", mon.D{"nwords": nw, "i": p, "Get": fmt.Sprintf("%#x", g), "Get1": g1, "expected_member": e1 == 1})
+					return
+				}
+			}
+			w.Eval(4)
+		}
+		w.Tick()
+	}
+	w.Bucket("probe/bitmap>=2^31-bits")
+	w.Distinct(gen.Hash64(0x12b16, 1))
+	w.Sample(func() interface{} { return mon.D{"nwords": []int{1<<25 - 1, 1 << 25}, "set_bits": set} })
 }
